@@ -215,7 +215,7 @@ pub fn run(run: &mut Run) {
     });
     run.exhaustive = true;
     run.exhaustive_parts.push("all 74 088 ordered triples of the 42 intervals over a 7-chain, for i32, f64 and &str".into());
-    let n = run.tier.pick(20_000, 400_000);
+    let n = run.tier.pick(100_000, 4_000_000);
     let si = (prop::array::uniform3(0u8..3), prop::array::uniform3((small_or_wide_i64(), small_or_wide_i64()))).prop_map(|(k, v)| WideI { k, v });
     run.prop("wide_i64", n, si, wide_i);
     let sf = (prop::array::uniform3(0u8..3), prop::array::uniform3((small_or_wide_f64(), small_or_wide_f64()))).prop_map(|(k, v)| WideF { k, v: v.map(|p| (X(p.0), X(p.1))) });
